@@ -54,6 +54,31 @@ class Env:
             self._tus[which] = t
         return self._tus[which]
 
+    def tu_with_callee(self, factor: int) -> Any:
+        """a translation unit of TWO kernels: the entry point "knl" (same arguments as
+        tu("a")) calls "scale", and only the CALLEE depends on *factor*"""
+        key = f"callee{factor}"
+        if key not in self._tus:
+            import loopy as lp
+            scale = lp.make_function(
+                "{[i]: 0<=i<4}", f"y[i] = {factor}*x[i]",
+                [lp.GlobalArg("x", dtype=np.float64, shape=(4,)),
+                 lp.GlobalArg("y", dtype=np.float64, shape=(4,), is_output=True)],
+                name="scale", lang_version=(2018, 2))
+            entry = lp.make_kernel(
+                "{[j]: 0<=j<4}",
+                """
+                [j]: out[j] = scale([j]: a[j])
+                out2[j] = a[j] + b[j]
+                """,
+                [lp.GlobalArg("a", np.float64, shape=(4,)),
+                 lp.GlobalArg("b", np.float64, shape=(4,)),
+                 lp.GlobalArg("out", np.float64, shape=(4,), is_output=True),
+                 lp.GlobalArg("out2", np.float64, shape=(4,), is_output=True)],
+                name="knl", lang_version=(2018, 2))
+            self._tus[key] = lp.merge([entry, scale])
+        return self._tus[key]
+
 
 _env: Env | None = None
 
@@ -566,6 +591,12 @@ def build_member(kind: str, ctx: list[str], member: str, base0: Any,
         comp = {"n+1": lambda: n + 1, "1+n": lambda: 1 + n, "2n": lambda: 2 * n,
                 "n+n": lambda: n + n, "nt+1": lambda: n.tagged(foo()) + 1}[member[4:]]()
         return in_ctx(ctx, replace(base0, shape=(comp,)))
+    if member.startswith("tu:callee"):
+        t = env().tu_with_callee(int(member[-1]))
+        if kind == "LoopyCallResult":
+            return in_ctx(ctx, replace(base0, _container=replace(
+                base0._container, translation_unit=t)))
+        return in_ctx(ctx, replace(base0, translation_unit=t))
     if member[:4] in ("sup:", "sub:"):
         f = member[4:]
         m = dict(getattr(base0, f))
@@ -656,7 +687,9 @@ for _k, _ms in {"IndexLambda": ["sup:bindings", "sup:var_to_reduction_descr"],
                 "DictOfNamedArrays": ["sup:_data", "sub:_data"],
                 "FunctionDefinition": ["sup:returns", "sub:returns"],
                 "Einsum": ["sup:redn_axis_to_redn_descr"],
-                "LoopyCall": ["sup:bindings"]}.items():
+                # (two-kernel translation units that differ in the CALLEE only)
+                "LoopyCall": ["sup:bindings", "tu:callee2", "tu:callee3"],
+                "LoopyCallResult": ["tu:callee2", "tu:callee3"]}.items():
     SYM_MEMBERS[_k] = SYM_MEMBERS.get(_k, []) + _ms
 
 
@@ -665,6 +698,10 @@ def safe_hash(o: Any) -> str:
         return str(hash(o))
     except TypeError:
         return "unhashable"
+    except Exception as ex:      # noqa: BLE001
+        # (e.g. the member whose entrypoint names no kernel of the translation unit, once
+        # the hash looks the entry kernel up: an observation, not a reason to die)
+        return f"raises:{type(ex).__name__}"
 
 
 def keyof(o: Any) -> str:
@@ -742,7 +779,7 @@ def eval_family(case: dict, members: list[str], xblob: str | None,
     inset: list[list[bool]] = []
     indict: list[list[bool]] = []
     for i in range(n):
-        if hashes[i] == "unhashable":
+        if hashes[i] == "unhashable" or hashes[i].startswith("raises:"):
             inset.append([False] * n)
             indict.append([False] * n)
             continue
@@ -750,7 +787,7 @@ def eval_family(case: dict, members: list[str], xblob: str | None,
         d = {objs[i]: 1}
 
         def member(j: int, use_dict: bool, i: int = i, s: Any = s, d: Any = d) -> bool:
-            if hashes[j] == "unhashable":
+            if hashes[j] == "unhashable" or hashes[j].startswith("raises:"):
                 return False
             try:
                 return d.get(objs[j]) == 1 if use_dict else objs[j] in s
